@@ -1,7 +1,7 @@
 (* block round trip with the transaction codec of Model/Tx.v (C05/C04): header fields, order, ids, raw bytes *)
 From Coq Require Import ZArith List Lia Bool.
 Require Import Bits.Lib.Result Bits.Lib.Bytes.
-Require Import Bits.Model.CompactSize Bits.Model.Witness Bits.Model.Tx Bits.Proofs.Tx.
+Require Import Bits.Model.CompactSize Bits.Model.Witness Bits.Model.Tx Bits.Proofs.Tx Bits.Proofs.TxTotal.
 Require Import Bits.Model.Block Bits.Proofs.Block.
 Import ListNotations.
 Local Open Scope Z_scope.
@@ -53,6 +53,12 @@ Section WithHash.
     destruct (block_roundtrip_gen tx_parsed (tx_deser sha256) hdr h raws ps HD F1) as (blk & S & D);
       [rewrite Len; exact L|].
     exists blk, ps. auto.
+  Qed.
+
+  (* block_deser with the real transaction parser never exhausts its fuel, on any input *)
+  Theorem block_deser_tx_no_fuel block : block_deser tx_parsed (tx_deser sha256) block <> Err FuelE.
+  Proof.
+    apply block_deser_no_fuel; [apply tx_deser_consumes | apply tx_deser_no_fuel].
   Qed.
 
   (* from a structured header as well *)
